@@ -213,6 +213,27 @@ def falsified(text, flags, rec=None):
             aggvars = set(v for a in baggs for v in variables(a))
             if cmpvars & aggvars:
                 keys.add("Hyp_sym_vars_outside_agg")
+        # D39: three or more pairwise different variables are ordered as ONE chain although the other literals of the rule
+        # do not treat them alike (one of them occurs in fewer / more literals than another)
+        if "symmetry" in on and hasattr(stm, "body"):
+            neq = set()
+            for l in stm.body:
+                if l.ast_type == ASTType.Literal and l.atom.ast_type == ASTType.Comparison and len(l.atom.guards) == 1 \
+                        and l.atom.term.ast_type == ASTType.Variable and l.atom.guards[0].term.ast_type == ASTType.Variable:
+                    op = l.atom.guards[0].comparison
+                    if (l.sign == Sign.NoSign and op == ComparisonOperator.NotEqual) or \
+                            (l.sign == Sign.Negation and op == ComparisonOperator.Equal):
+                        neq.add(frozenset((l.atom.term.name, l.atom.guards[0].term.name)))
+            vs_ = sorted(set(v for p_ in neq for v in p_))
+            import itertools
+            for trio in itertools.combinations(vs_, 3):
+                if all(frozenset(pr) in neq for pr in itertools.combinations(trio, 2)):
+                    def uses(v):
+                        return sum(1 for l in stm.body if v in variables(l) and not (
+                            l.ast_type == ASTType.Literal and l.atom.ast_type == ASTType.Comparison
+                            and set(variables(l)) <= set(trio)))
+                    if len({uses(v) for v in trio}) > 1:
+                        keys.add("Hyp_sym_clique_uniform")
         # C05a: boolean constants as elements of an old-style aggregate
         for n in walk(stm):
             if n.ast_type == ASTType.Aggregate and stm.ast_type in (ASTType.Rule, ASTType.Minimize) and \
